@@ -334,6 +334,50 @@ def cmp_P(Pm, Pi):
     return close(Pm, Pi)
 
 
+def dead_modes(I, P):
+    """per row: the first mode at which the drawn index has (numerically) zero probability in the implementation's own
+    vector (<= 1e-12 of its sum), else None.  What the samplers hand to choice AFTER such an event is 0/0 in exact
+    arithmetic and rounding noise in floats; the property says nothing about it, so it is not compared."""
+    out = []
+    for row, Pr in zip(I, P):
+        dk = None
+        for k, (i, pv) in enumerate(zip(row, Pr)):
+            tot = sum(pv)
+            if not (pv[int(i)] > 1e-12 * tot):
+                dk = k
+                break
+        out.append(dk)
+    return out
+
+
+def cmp_rows(Pm, Pi, dead):
+    """probability vectors row by row, up to and including the mode of a zero-probability draw"""
+    if len(Pm) != len(Pi):
+        return False
+    for a, b, dk in zip(Pm, Pi, dead):
+        if len(a) != len(b):
+            return False
+        K = len(b) if dk is None else dk + 1
+        if not cmp_P(list(a)[:K], list(b)[:K]):
+            return False
+    return True
+
+
+
+def zero_prob_draw(g):
+    """did any recorded choice(n, p=p) call return an index whose probability is <= 1e-12 of the vector sum?"""
+    for c in g.of('choice'):
+        if c['p'] is None:
+            continue
+        pv = np.asarray(c['p'], dtype=float)
+        if not np.isfinite(pv).all():
+            continue
+        for i in np.atleast_1d(c['out']).tolist():
+            if not (pv[int(i)] > 1e-12 * pv.sum()):
+                return True
+    return False
+
+
 def natl(x):
     return C.nested(np.asarray(x).astype(int).tolist(), str)
 
@@ -519,11 +563,12 @@ def corr_sample(R, ctx, tn):
             return None
         if [list(r) for r in I] != im[1]:
             return 'sampled indices differ'
-        if not cmp_P(P, im[2]):
+        if not cmp_rows(P, im[2], dead_modes(im[1], im[2])):
             return 'probability vectors handed to choice differ'
         return None
     bad = _tolerant_stream(R, 'sample', terms, impls, inputs, cmpf, 10, dist,
-                           'indices exact; every probability vector handed to choice within 1e-12 of the exact rational')
+                           'indices exact; every probability vector handed to choice within 1e-12 of the exact rational (per '
+                           'row up to and including a forced draw of probability <= 1e-12)')
     if dist['contract_bad']:
         R.corr.append(dict(name='sample: generator contract', cases=N, mismatches=dist['contract_bad'],
                            comparison='choice returns indices < n', distribution={}, first_mismatches=[]))
@@ -580,14 +625,20 @@ def corr_square(R, ctx, tn):
         terms.append(f'showSq (sample_square OQc (lk_ch {rec_choice(g)}) (lk_shufr {recsh}) {tt_lit(Z, fq)} {m} '
                      f'{"true" if unique else "false"} {m_fact} {C.zlit(max_rep)})')
         impls.append(dict(code=0 if err is None else C.errclass(err), I=None if I is None else np.asarray(I).tolist(),
-                          dtype=None if I is None else str(np.asarray(I).dtype), att=att, err=repr(err)[:200]))
+                          dtype=None if I is None else str(np.asarray(I).dtype), att=att, err=repr(err)[:200],
+                          zero_prob_draw=zero_prob_draw(g)))
         inputs.append(inp)
 
     def cmpf(v, im):
         code, (I, att) = v
         if 'note' in im:
             return im['note']
+        # a draw of (numerically) zero probability somewhere in the run: afterwards the code computes noise/noise where
+        # exact arithmetic has 0/0, so one side may raise the ValueError of choice(p=NaN) where the other goes on
+        tainted = im['zero_prob_draw']
         if code != im['code']:
+            if tainted and {code, im['code']} <= {0, 1}:
+                return None
             return f"error class: model {code} implementation {im['code']} ({im['err']})"
         if code != 0:
             return None
@@ -598,12 +649,14 @@ def corr_square(R, ctx, tn):
         for (Ia, Pa), (m1, Ii, Pi) in zip(att, im['att']):
             if Ii is None or [list(r) for r in Ia] != Ii:
                 return 'drawn rows of an attempt differ'
-            if not cmp_P(Pa, Pi):
+            if not cmp_rows(Pa, Pi, dead_modes(Ii, Pi)):
                 return 'probability vectors handed to choice differ'
         return None
     bad = _tolerant_stream(R, 'sample_square', terms, impls, inputs, cmpf, 3, dist,
                            'returned rows, restart structure, drawn rows exact; probability vectors within 1e-12 of '
-                           'the exact rational computed from the recorded orthogonalised cores')
+                           'the exact rational computed from the recorded orthogonalised cores (per row up to and '
+                           'including a forced draw of probability <= 1e-12: what follows a probability-zero event is '
+                           'not compared)')
     R.corr.append(dict(name='sample_square: orthogonality contract of orthogonalize(Y, 0, use_stab=True)',
                        cases=N, mismatches=len(orth_bad), comparison='residual <= 1e-10 on every recorded call',
                        distribution=dict(worst=dist['worst_orth_residual']), first_mismatches=orth_bad[:3]))
